@@ -189,7 +189,9 @@ def project_model(model):
                 e["weight_digest"] = digest(w)
                 e["payload"] = {"cls": "float"}
         else:
-            e.update({"wq": "none", "aq": "none", "frozen": False, "gs": 0, "weight_digest": digest(w) if w is not None else "none", "payload": {"cls": "float"}})
+            zero = {"s": 0, "m": [], "e": 0, "dtype": "none", "f": 0.0}
+            e.update({"wq": "none", "aq": "none", "frozen": False, "gs": 0, "weight_digest": digest(w) if w is not None else "none", "payload": {"cls": "float"},
+                      "insc": zero, "outsc": zero})
         mods.append(e)
     return mods
 
@@ -260,6 +262,9 @@ def recipe_event(m, name, xin, yout):
     else:
         xdq = xin
     ref = float_forward(m, xdq, wdq, m.bias)
+    if aq is not None:
+        # "... re-quantized with the module's output scale" (saturation included)
+        ref = quantize_activation(ref, qtype=aq, scale=m.output_scale).dequantize()
     absref = float_forward(m, xdq.abs(), wdq.abs(), m.bias.abs() if m.bias is not None else None) if base_kind(m) != "LayerNorm" else ref.abs()
     out = deq(yout)
     rv, av, ov = to_fractions(ref), to_fractions(absref), to_fractions(out)
@@ -290,6 +295,7 @@ class Runner:
         g = torch.Generator().manual_seed(11)
         self.inputs = {"x1": torch.randn(self.xshape, generator=g).to(self.dtype), "x2": (torch.randn(self.xshape, generator=g) * 2).to(self.dtype)}
         self.batches = {k: (torch.randn(self.xshape, generator=g) * (v or 1.0)).to(self.dtype) for k, v in BATCH.items()}
+        self._bone_raw = self.batches["bone"]
         self.events = []
 
     def post(self, ev):
@@ -412,8 +418,19 @@ class Runner:
             ev["momenta"] = [c.momentum for c in self.ctxs]
             ev["n_ctx"] = len(self.ctxs)
 
+    def batch(self, name):
+        if name != "bone":
+            return self.batches[name]
+        # absmax exactly equal to the storage maximum of the activation qtype: the computed scale is exactly 1.0
+        aq = next((m.activation_qtype for _, m in leaf_modules(self.model) if isinstance(m, QModuleMixin) and m.activation_qtype is not None), None)
+        top = 127.0 if aq is None or not aq.is_floating_point else float(torch.finfo(aq.dtype).max)
+        x = self._bone_raw.clone().float()
+        x = x / x.abs().max() * (top / 2)
+        x.reshape(-1)[0] = top
+        return x.to(self.dtype)
+
     def do_CalibBatch(self, a, ev):
-        self._calib_forward(self.batches[a["batch"]], ev)
+        self._calib_forward(self.batch(a["batch"]), ev)
 
     def do_RaiseIn(self, a, ev):
         leaves = leaf_modules(self.model)
@@ -423,7 +440,7 @@ class Runner:
             raise RuntimeError("verif: injected failure")
         h = leaves[k][1].register_forward_pre_hook(boom)
         try:
-            self._calib_forward(self.batches[a["batch"]], ev)
+            self._calib_forward(self.batch(a["batch"]), ev)
             ev["raised"] = False
         except RuntimeError as e:
             ev["raised"] = "injected" in str(e)
@@ -493,7 +510,7 @@ class Runner:
             self.saved_out = [out_proj(self.model(x)) for x in (self.inputs["x1"], self.inputs["x2"])]
         self.saved_proj = project_model(self.model)
         ev["sd_after"] = sd_projection(sd)
-        ev["sd_same"] = sd_projection(sd) == ev["sd_before"] and list(sd.keys()) == list(ev["sd_before"].keys())
+        ev["sd_same"] = sd_projection(sd) == ev["sd_before"]          # equal as a mapping (key order is not part of the claim)
 
     def do_Load(self, a, ev):
         new, _ = build(self.sk["arch"], self.dtype, 99, self.nested)
